@@ -196,6 +196,10 @@ func (s *memoryStore) SetNode(n store.Node) error {
 	s.mu.Lock()
 	defer s.mu.Unlock()
 	node := memNode{Node: n}
+	if existing, ok := s.nodes[n.ID]; ok {
+		// Re-registering a node replaces its record but keeps its tracked peers.
+		node.peers = existing.peers
+	}
 	if node.peers == nil {
 		node.peers = map[store.NodeID]time.Time{}
 	}
